@@ -2,7 +2,9 @@ PROP = dict(
         coq="Properties/C09.v",
         workloads=[
             dict(name="liquidation-sweeps", go_test="TestC09", runner="C09",
-                 env=dict(quick=dict(VERIF_CASES=400), thorough=dict(VERIF_CASES=6000))),
+                 env=dict(quick=dict(VERIF_CASES=240), thorough=dict(VERIF_CASES=4500))),
+            dict(name="borrow-liquidation", go_test="TestC09Borrow", runner="C09-borrow",
+                 env=dict(quick=dict(VERIF_CASES=60), thorough=dict(VERIF_CASES=1000))),
         ],
         rule="case = (generation V1|V2, 1-2 apps enabled for liquidation, batch 1-5 (0 is rejected by the module's param validation), 1-12 vaults over 4 extended pairs / 2 collateral "
              "assets (decimals 10^6, 10^8) with ratios at, just above and far above the liquidation ratio, then 6-25 blocks of the REAL "
@@ -11,26 +13,52 @@ PROP = dict(
              "(counter != list length, incl. wrap below zero)); every 4th case is a quiet starvation run (one price drop, then only blocks); "
              "5 directed schedules run last (the two C09-F1 witnesses on both generations, and the regression of the repaired C09-F2: "
              "2 vaults, batch 1, second unsafe, V2); the V2 projection holds both sweep offsets (key 0 vaults, key 1 borrows); "
-             "the populations hold no lend borrows (the borrow rules and the borrow sweep are proved on the model only); "
-             "non-trivial = at least one position was seized in the case; distinct by digest of (kind, generation, batch, per-block seized ids, messages)",
+             "the vault populations hold no lend borrows; "
+             "non-trivial = at least one position was seized in the case; distinct by digest of (kind, generation, batch, per-block seized ids, messages). "
+             "BORROW workload (borrow-liquidation): case = (batch 1-4, or >= population in every 3rd 'boundary' case; 2-8 REAL borrows opened through the lend "
+             "message server by fresh users over 13 lend pairs of 2 pools whose main / first-transit / second-transit assets carry DIFFERENT liquidation "
+             "thresholds with 18 significant decimals: same-pool pairs, cross-pool pairs bridged through the first transit asset and (larger ones, the pool holds "
+             "little of the first transit asset) through the second, e-mode pairs same-pool and cross-pool, stable and variable rates, decimals 10^6 / 10^8); then "
+             "8-21 blocks of the REAL liquidationsV2.BeginBlocker each preceded by up to 2 steps: price moves that put the ratio of a chosen borrow EXACTLY at, "
+             "+-1, +-2, +-1000 units in the last place and far from each of the 8 thresholds the code could apply (both bases, the 4 rounded products, 2 truncated "
+             "products; 3 of 5 aimed at the applicable one), ordinary price moves incl. inactive prices, MsgLiquidateInternalKeeper liq type 1 on open / liquidated "
+             "/ unknown ids and type 2, new borrows (inserted inside the swept list), repay-and-close, draw / repay, time gaps up to a year (interest), kill switch, "
+             "whitelisting Dutch / English toggles, liquidity withdrawal from a pool, MsgLiquidateExternalKeeper with and without reserve funds; 8 directed cases "
+             "run last (the witnesses of the findings C09-F5 pool-short and C09-F6 reserve-index-zero; one borrow of each bridge kind moved to -1 / 0 / +1 of each of its three candidate thresholds; the batch sizes 2^63, 2^64-1, 2^63-1 through "
+             "the governance parameter-change handler followed by blocks over unsafe borrows). Per visit the harness dumps the RAW inputs (amounts, interest as that "
+             "visit computes it on a shadow branch advanced like the real sweep, prices, decimals, both thresholds of the collateral asset, e-mode flag, bridged coin, "
+             "first transit denom, both transit thresholds, whitelisting flags, pool balances); the extracted model makes the case split and the decision",
         modelled=["the seizure's book-keeping beyond custody (locked-vault record fields, auction prices, interest accrual inside the seizure) "
                   "is judged by predicate on the implementation, not re-computed",
                   "capacity of the Go slice GetVaults returns is an env input measured by the harness (append growth policy)",
-                  "the V2 borrow sweep and the borrow seize rule have no harness workload (no lend borrows in the C09 populations); C15's "
-                  "crash-point run drives the real LiquidateBorrows on liquidatable borrows",
+                  "borrow seizure: the locked vault's debt / target-debt / fee / bonus fields, the auction's prices and the interest written back to the "
+                  "seized borrow are not re-computed (C10 / C18); InterestAccumulated of a visit is an env input measured with the lend keeper's own "
+                  "CalculateBorrowInterestForLiquidation / ReBalanceStableRates on a shadow branch",
+                  "the borrow workload holds no vaults (the vault half of the V2 hook runs on an empty list there); the first-generation borrow sweep "
+                  "(x/liquidation, BeginBlocker not wired on this tree) has no workload",
+                  "a pool without second transit asset / an asset without rate parameters (nil Dec in the threshold product) is not reachable through the "
+                  "lend message server and not modelled",
                   "ESM price-snapshot branch of CalculateCollateralizationRatio is modelled but unreachable from the sweeps (ESM on blocks them first)"],
         assumptions=["vault ids are assigned in increasing order and the KV iteration order is by id (big-endian keys)",
-                     "liveness theorems: batch >= 1, counter = list length, controls off, prices active, liquidation and its auction enabled"],
+                     "liveness theorems: batch >= 1 (every batch size the parameter validation admits since fix C09-F4: c09_valid_batch), counter = list "
+                     "length, controls off, prices active, liquidation and its auction enabled; for a borrow additionally: its pool holds the recorded "
+                     "collateral and cTokens (UpdateLockedBorrows can complete)",
+                     "asset denoms are unique (a denom is identified with its asset id in the bridged-denom comparison)"],
     )
 
 MANIFEST = dict(
     level_text="Safety (no position at or above its liquidation ratio / at or below its threshold is ever seized, by any sweep of either "
-               "generation or by the liquidate message) proved for every population, offset, batch size, counter value and slice capacity; "
+               "generation or by the liquidate message) proved for every population, offset, batch size, counter value and slice capacity; the threshold "
+               "applicable to a borrow is the model's applicable_threshold, computed from the raw record fields exactly as LiquidateIndividualBorrow does (e-mode "
+               "base; same pool / first transit / second transit product in sdk.Dec), and exact hand-over of a borrow seizure (collateral pool -> auction custody, "
+               "cToken burn, pool statistics, lend position, IsLiquidated, one locked vault, one auction, nothing else) is proved for every world; both are replayed "
+               "and judged on the REAL lend + liquidationsV2 keepers with exact-threshold price boundaries; "
                "slice bounds proved; liveness proved by induction for the single-offset sweep with an explicit bound in blocks that holds for "
                "every price path and every interleaving of creations / closes of other positions; the liquidationsV2 hook is proved to be that "
                "sweep on the vault list and an independent, per-item wrapped sweep on the borrow list (after the fixes C09-F2: own offset key, "
-               "C09-F3: ApplyFuncIfNoError per borrow), and the borrow sweep is proved live for every verdict of the other borrows, errors and "
-               "panics included (quiet chain: within (n-1)/batch+2 blocks, i.e. within the literal 'two full sweeps'); the literal 'two full "
+               "C09-F3: ApplyFuncIfNoError per borrow, C09-F4: batch size <= MaxInt64), and the borrow sweep is proved live for every verdict of the other borrows, errors and "
+               "panics included (quiet chain: within (n-1)/batch+2 blocks, i.e. within the literal 'two full sweeps'; with repayments and new borrows inserted "
+               "anywhere in the list: blive_bound); the literal 'two full "
                "sweeps' bound for vaults is proved refuted and listed as a known finding with witnesses replayed on the real keepers. Model "
                "tied to /repo by a differential run of the real BeginBlockers and messages on every check.",
     design_ref="DESIGN.md section 4 C09",
